@@ -45,10 +45,13 @@ def run(run, ix, tier):
     run.rule('C-R4', floor=6, desc='outward perturbation idiom of cos/sin')
     run.rule('C-R5', floor=15, desc='directed kernels honour the mode')
     run.rule('C-R6', floor=6, desc='conversions into intervals')
+    run.rule('C-R5g', floor=15, desc='directed kernels: no weakly guarded undirected intermediate at the final rounding')
     common(run, ix, complex_=False)
     check_finalize(run, ix)
     check_directed_kernels(run, ix)
     check_conversions(run, ix)
+    run.rule('C-R13', floor=12, desc='non-audited interval functions compose interval operations only')
+    iv_rules.check_composition(run, ix, False)
     # C-R10: direction of the x + eps shortcuts of the real kernels
     from ..perturb import check_perturbations
     run.rule('C-R10', floor=15, desc='mpf_perturb sites: sign of the neglected term')
@@ -351,6 +354,13 @@ def check_directed_kernels(run, ix):
         gp = 'prec' if 'prec' in g.params else None
         if gp is None:
             continue
+        for ret, inter, k in weakly_guarded_finals(g):
+            run.fail(Finding('C-R5g', g.file, g.qualname, norm(ret),
+                             'the directed final rounding is applied to `%s`, an inexact intermediate with only %d '
+                             'guard bits that was itself rounded toward zero: with probability 2**-%d it fits in '
+                             'prec bits and is returned unchanged on the wrong side of the exact value (used by %s)'
+                             % (norm(inter, 60), k, k, ', '.join(sorted(users)[:3])), line=ret.lineno))
+        run.ok('C-R5g')
         s = eng.summary(g, gp, consts)
         bad = [c for c in s if bad_mode(c)]
         if not bad:
@@ -365,6 +375,69 @@ def check_directed_kernels(run, ix):
                          'direction on this path (mode term %s): a floor request can yield a value '
                          'above the exact one; used by %s'
                          % (', '.join(modes), ', '.join(sorted(users)[:4])), line=node.lineno))
+
+
+GUARD_MIN = 10
+EXACT_OR_DIRECTED_OK = ('mpf_neg', 'mpf_abs', 'mpf_shift', 'mpf_pi', 'mpf_ln2', 'mpf_ln10', 'mpf_e', 'mpf_euler',
+                        'mpf_phi', 'mpf_degree', 'mpf_catalan')
+
+
+def weakly_guarded_finals(g):
+    """[(return node, intermediate call, k)]: the value returned through a final rounding in the caller's mode
+    is an inexact kernel result computed at prec+k with 0 < k < GUARD_MIN and WITHOUT a rounding direction
+    (default: toward zero).  Whenever that intermediate happens to fit in prec bits (probability 2**-k) the
+    directed final rounding returns it unchanged although it lies on the wrong side of the exact value."""
+    if 'prec' not in g.params or 'rnd' not in g.params or not isinstance(g.node, ast.FunctionDef):
+        return []
+    defs = {}
+    for x in _walk_own(g.node):
+        if isinstance(x, ast.Assign) and len(x.targets) == 1 and isinstance(x.targets[0], ast.Name):
+            defs.setdefault(x.targets[0].id, []).append(x.value)
+
+    def aff(e):
+        if isinstance(e, ast.Name):
+            return (e.id, 0)
+        if isinstance(e, ast.BinOp) and isinstance(e.op, (ast.Add, ast.Sub)) and isinstance(e.left, ast.Name) and \
+                isinstance(e.right, ast.Constant) and isinstance(e.right.value, int):
+            return (e.left.id, e.right.value if isinstance(e.op, ast.Add) else -e.right.value)
+        return None
+    wp = {}
+    for k, v in defs.items():
+        if len(v) == 1:
+            a = aff(v[0])
+            if a and a[0] == 'prec':
+                wp[k] = a[1]
+
+    def guard_of(call):
+        for a in call.args[1:]:
+            p = aff(a)
+            if p:
+                if p[0] == 'prec':
+                    return p[1]
+                if p[0] in wp:
+                    return wp[p[0]] + p[1]
+        return None
+
+    def directed(call):
+        return any('rnd' in norm(a) for a in call.args[1:]) or any('rnd' in norm(k.value) for k in call.keywords)
+    out = []
+    for x in _walk_own(g.node):
+        if isinstance(x, ast.Return) and isinstance(x.value, ast.Call) and \
+                norm(x.value.func) in ('mpf_pos', 'mpf_add', 'mpf_sub', 'mpf_mul', 'mpf_div', 'mpf_shift') and \
+                any(norm(a) == 'rnd' for a in x.value.args):
+            for a in x.value.args:
+                srcs = []
+                if isinstance(a, ast.Name) and len(defs.get(a.id, [])) == 1:
+                    srcs = [defs[a.id][0]]
+                elif isinstance(a, ast.Call):
+                    srcs = [a]
+                for s_ in srcs:
+                    if isinstance(s_, ast.Call) and isinstance(s_.func, ast.Name) and \
+                            s_.func.id.startswith(('mpf_', 'mpc_')) and s_.func.id not in EXACT_OR_DIRECTED_OK:
+                        k = guard_of(s_)
+                        if k is not None and 0 < k < GUARD_MIN and not directed(s_):
+                            out.append((x, s_, k))
+    return out
 
 
 def check_conversions(run, ix):
